@@ -19,6 +19,7 @@ package cli
 import (
 	"errors"
 	"strings"
+	"unicode"
 
 	"github.com/cosmos/btcutil/base58"
 	"github.com/ethereum/go-ethereum/common"
@@ -32,6 +33,12 @@ func parseAddress(address string) ([]byte, error) {
 		return leftPadBytes(bz)
 	}
 
+	// base58.Decode indexes a 256-entry table by rune and panics on runes >= 256
+	for _, r := range address {
+		if r > unicode.MaxASCII {
+			return nil, errors.New("address must be ASCII")
+		}
+	}
 	bz := base58.Decode(address)
 	return leftPadBytes(bz)
 }
